@@ -1191,6 +1191,7 @@ fn golden_oracle(g: &Golden, _case: &mut Case) -> Verdict {
 // ---------------------------------------------------------------------------------
 
 pub fn run(ctx: &Ctx) {
+    run_fuzz_raw(ctx, fuzz_entry);
     ctx.rule("roundtrip: proptest sequences of 0..200 ops over every Op variant with operands on and around every encoding boundary (0, +-2^7, +-2^15, +-2^23 each +-1, i32/u32 limits, fnt_num/set_char fast-path limits), strings = arbitrary Unicode of exactly 0..255 UTF-8 bytes, xxx payloads up to 2^24+1 bytes; non-trivial = some operand needs >= 2 bytes or a string/payload is present; plus a deterministic per-op sweep of +-W around every boundary. bytes_total: random bytes, opcode-biased bytes and truncations/byte edits of valid streams, plus every byte string of length <= 2 (3 in thorough); non-trivial = a multi-byte command was decoded or the data ended inside a command. var_remover: page-content sequences (<= 200 ops; push/pop balanced or not, several pages) compared through an independent DVItype-style tracker; non-trivial = a variable is set, pushed over, changed, popped and reused by w0/x0/y0/z0, or is non-zero at a bop and reused on the new page, and a character or rule is typeset while that motion is in effect; distinct = by op sequence");
     ctx.assume("strings (font area/name, preamble comment) are valid Unicode of at most 255 UTF-8 bytes: the writer truncates at 255 bytes and the reader decodes lossily, longer or non-UTF-8 strings are not expressible values");
     ctx.assume("post_post directly followed by fnt_num_52 (byte 223) cannot be expressed in the DVI format itself (the trailing 223 bytes of post_post absorb it); for such sequences the expected reading is the folded one (count of 223s increased), counted in class post_post_then_fnt_num_52");
@@ -1237,4 +1238,10 @@ pub fn run(ctx: &Ctx) {
     // (iii)
     let n = tier.pick(100_000u64, 2_500_000u64);
     run_generated(ctx, "var_remover", n, page_ops, |ops: &Vec<DOp>, case| remover_oracle(ops, case));
+}
+
+
+/// Entry point shared by the libFuzzer target and the `fuzz_raw` replay sub-check.
+pub fn fuzz_entry(ctx: &Ctx, data: &[u8]) -> Verdict {
+    bytes_oracle(ctx, &BCase::Raw(data.to_vec()), &mut Case::default())
 }
